@@ -4,6 +4,10 @@ import json, os
 HERE = os.path.dirname(os.path.dirname(os.path.abspath(__file__)))
 
 CHECKS = {
+ 'C06': dict(level='exploration', ref='3/C06',
+   technique='history permutation and re-parse round trips in twin worlds (harness reset between): the same binding set applied in two orders with failing operations interleaved, every intermediate config_str re-parsed in a reset world; a share of runs under dynamic registration over virtual packages with colliding import names',
+   text='Bindings with unique keys over probes whose dotted names collide or differ only in case carry values from a pool of 40 shapes (nested containers, strings that pprint wraps, quotes/newlines/unicode/backslashes, bytes, floats, references, macros, objects, inf, nan, IntEnum, sets), for every drawn max_line_length > continuation_indent; every text taken along the way must parse in a reset world, the final text must restore each representable binding with equal value and type, be a fixpoint, be identical for the second application order, list sections in canonical order, omit values without literal form (parameters and macros), keep every binding line verbatim under markdown(), and under dynamic registration re-parse so that every selector reaches the same planted object.',
+   note='Hash order pinned (PYTHONHASHSEED=0) and re-checked under another seed by the determinism self-test; dict values are compared as dicts (order-insensitive).'),
  'C19': dict(level='exploration', ref='3/C19',
    technique='in-process fake import targets (ModuleType package tree in sys.modules) + simulated config files (VFS) with include trees; object-identity oracle through gin.get_configurable(planted object), config_str twin re-parsed in a reset world, bad-name faults with parse-context depth check',
    text='Files enable dynamic registration, import the virtual modules in all four forms (aliases drawn, bound names colliding across files), include one another with different imports per file, and configure functions, classes, a nested class, methods (before or after the class is referenced) and reference-holding consumers through their own symbols; every configured object - reached through the planted Python object itself - must receive the bound values whichever spellings were used, references made before a method registration must deliver a configured class whose method is configured, names from another file\'s imports / missing attributes / the gin symbol / late, aliased or unknown __gin__ statements must raise the stated class and leave the parse-context stack unchanged, and config_str() re-parsed in a reset world must configure the same objects identically.',
